@@ -1,7 +1,8 @@
 --------------------------- MODULE GenGatewayCar ---------------------------
 (* Phase G: class-product enumeration.  One behaviour per (small tree, content path): the DAG,
    the terminal, the blocks needed for the path, the expected raw-block answer, and for every
-   request (dag-scope x entity-bytes x dups) the set of blocks PART 1 of GatewayCar requires
+   request (dag-scope x entity-bytes x duplicates policy y|n|unspecified x entry point HTTP handler |
+   direct BlocksBackend.GetCAR call) the set of blocks PART 1 of GatewayCar requires
    (`need`) plus the CAR PART 2 predicts (`order`, informational).  The harness builds the real
    DAG, sends the requests through gateway.NewHandler and compares. *)
 EXTENDS CarRules
@@ -14,21 +15,27 @@ RECURSIVE Dedup(_, _, _)
 Dedup(s, i, acc) == IF i > Len(s) THEN acc
                     ELSE Dedup(s, i + 1, IF \E j \in DOMAIN acc : acc[j] = s[i] THEN acc ELSE Append(acc, s[i]))
 
-ReqOut(d, res, pseq, q) ==
-  LET ord == pseq \o ScopeSeq(d, res.term, q.scope, q.rng)
-  IN [scope |-> q.scope, has |-> q.rng.has, from |-> q.rng.from, star |-> q.rng.star, to |-> q.rng.to,
-      dups |-> q.dups, lo |-> Lo(q.rng, d[res.term].sz), hi |-> Hi(q.rng, d[res.term].sz),
-      need |-> res.blocks \cup ScopeBlocks(d, res.term, q.scope, q.rng),
-      order |-> IF q.dups THEN ord ELSE Dedup(ord, 1, <<>>)]
+\* what depends only on (dag-scope, entity-bytes): computed once per shape, shared by the
+\* duplicates-policy x entry-point variants
+ShapeOut(d, res, pseq, s) ==
+  [scope |-> s.scope, has |-> s.rng.has, from |-> s.rng.from, star |-> s.rng.star, to |-> s.rng.to,
+   lo |-> Lo(s.rng, d[res.term].sz), hi |-> Hi(s.rng, d[res.term].sz),
+   need |-> res.blocks \cup ScopeBlocks(d, res.term, s.scope, s.rng),
+   loads |-> pseq \o ScopeSeq(d, res.term, s.scope, s.rng)]
+ReqOut(so, q) ==
+  [scope |-> so.scope, has |-> so.has, from |-> so.from, star |-> so.star, to |-> so.to,
+   dups |-> q.dups, via |-> q.via, lo |-> so.lo, hi |-> so.hi, need |-> so.need,
+   order |-> IF WriterKeeps(q) THEN so.loads ELSE Dedup(so.loads, 1, <<>>)]
 
 Behaviour ==
   LET d == MkDag(tp)
       res == Resolve(d, RootId, path)
       pseq == <<RootId>> \o PathSeq(d, RootId, path)
+      S == d[res.term].sz
+      outs == TLCEval([s \in Shapes(S) |-> ShapeOut(d, res, pseq, s)])
   IN [tp |-> tp, hash |-> Hash, dag |-> d, root |-> RootId, path |-> path, term |-> res.term,
-      pathBlocks |-> res.blocks, size |-> d[res.term].sz,
-      reqs |-> {ReqOut(d, res, pseq, [path |-> path, scope |-> x.scope, rng |-> x.rng, dups |-> x.dups]) :
-                  x \in ReqsFor(d, RootId, path)}]
+      pathBlocks |-> res.blocks, size |-> S,
+      reqs |-> {ReqOut(outs[[scope |-> x.scope, rng |-> x.rng]], x) : x \in ReqsFor(d, RootId, path)}]
 
 \* two levels so that TLC's workers share the work: initial states = trees, successors = paths
 GInit == tp \in TreeParams /\ path = <<"?">>
